@@ -34,8 +34,8 @@ theorem C07_prepare_roundtrip (c : Codec) (hc : c.RoundTrip) (level : Int) (p : 
 
 /-- what a client reads from a frame stored whole -/
 structure ReadsBack (c : Codec) (H : Bytes → Bytes) (s : Store) (f : Frame) (p : Bytes) : Prop where
-  canonical : canonicalBytes c s f = .ok p
-  blob : blobReader c s f = .ok p
+  canonical : canonicalBytes c H s f = .ok p
+  blob : blobReader c H s f = .ok p
   checksum : f.checksum = H (slice s.file f.off f.len)
   decodes : decodeCanonical c (slice s.file f.off f.len) f.enc = some p
 
@@ -50,7 +50,7 @@ theorem C07_whole (c : Codec) (hc : c.RoundTrip) (H : Bytes → Bytes) (s : Stor
     (hsmall : (prepare c a.level a.payload).bytes.length ≤ MAX_FRAME_BYTES) :
     ∃ f, s.frames[tableLen pre]? = some f ∧ f.id = tableLen pre ∧ ReadsBack c H s f a.payload := by
   refine ⟨mkFrame H (tableLen pre) cur none (parentEntry c a), frames_doc hi, rfl, ?_⟩
-  have hg : Holds s (mkFrame H (tableLen pre) cur none (parentEntry c a), (parentEntry c a).payload) :=
+  have hg : Holds H s (mkFrame H (tableLen pre) cur none (parentEntry c a), (parentEntry c a).payload) :=
     hi.stored _ (mem_tableG_block (by simp [blockG]))
   have hpe : parentEntry c a =
       { payload := (prepare c a.level a.payload).bytes, enc := (prepare c a.level a.payload).enc,
@@ -58,7 +58,7 @@ theorem C07_whole (c : Codec) (hc : c.RoundTrip) (H : Bytes → Bytes) (s : Stor
         chunkIndex := none, search := a.search, mime := a.mime } := by
     simp [parentEntry, parentStored, hplan]
   have hd := decode_prepare c hc a.level a.payload
-  have hown : ownCanonical c s (mkFrame H (tableLen pre) cur none (parentEntry c a)) = .ok a.payload := by
+  have hown : ownCanonical c H s (mkFrame H (tableLen pre) cur none (parentEntry c a)) = .ok a.payload := by
     apply ownCanonical_of_holds hg hi.pe_de hi.pe_file
     · show (parentEntry c a).payload.length ≤ MAX_FRAME_BYTES
       rw [hpe]; exact hsmall
@@ -68,19 +68,19 @@ theorem C07_whole (c : Codec) (hc : c.RoundTrip) (H : Bytes → Bytes) (s : Stor
       rw [hpe]; exact hd.2.symm
   have hnm : isManifestDoc (mkFrame H (tableLen pre) cur none (parentEntry c a)) = false := by
     simp [isManifestDoc, mkFrame, hpe]
-  have hcan : canonicalBytes c s (mkFrame H (tableLen pre) cur none (parentEntry c a)) = .ok a.payload := by
+  have hcan : canonicalBytes c H s (mkFrame H (tableLen pre) cur none (parentEntry c a)) = .ok a.payload := by
     unfold canonicalBytes; rw [hnm]; simpa using hown
   have hbytes : slice s.file cur (parentEntry c a).payload.length = (parentEntry c a).payload := hg.bytes
   refine ⟨hcan, ?_, ?_, ?_⟩
-  · unfold blobReader
-    cases henc : (mkFrame H (tableLen pre) cur none (parentEntry c a)).enc with
-    | zstd => exact hcan
+  · cases henc : (mkFrame H (tableLen pre) cur none (parentEntry c a)).enc with
+    | zstd => unfold blobReader; rw [henc]; exact hcan
     | plain =>
       have hpl : (prepare c a.level a.payload).enc = .plain := by
         have : (parentEntry c a).enc = .plain := henc
         rw [hpe] at this; exact this
-      show Except.ok (slice s.file cur (parentEntry c a).payload.length) = Except.ok a.payload
-      rw [hbytes, hpe]
+      have hb : blobReader c H s (mkFrame H (tableLen pre) cur none (parentEntry c a)) = .ok (parentEntry c a).payload :=
+        blobReader_plain_of_holds (c := c) hg henc
+      rw [hb, hpe]
       show Except.ok (prepare c a.level a.payload).bytes = Except.ok a.payload
       rw [prepare_plain_bytes c a.level a.payload hpl]
   · show H (parentEntry c a).payload = H (slice s.file cur (parentEntry c a).payload.length)
@@ -93,7 +93,7 @@ theorem C07_reader (c : Codec) (hc : c.RoundTrip) (H : Bytes → Bytes) (s : Sto
     (pre post : List (Nat × PutArgs)) (cur : Nat) (a : PutArgs) (pend : List PutArgs)
     (hi : Inv c H s (pre ++ (cur, a) :: post) pend) (hplan : a.plan = none)
     (hsmall : (prepare c a.level a.payload).bytes.length ≤ MAX_FRAME_BYTES) :
-    ∃ f, s.frames[tableLen pre]? = some f ∧ blobReader c s f = canonicalBytes c s f := by
+    ∃ f, s.frames[tableLen pre]? = some f ∧ blobReader c H s f = canonicalBytes c H s f := by
   obtain ⟨f, h1, _, h2⟩ := C07_whole c hc H s pre post cur a pend hi hplan hsmall
   exact ⟨f, h1, by rw [h2.canonical, h2.blob]⟩
 
@@ -109,8 +109,8 @@ theorem C07_chunked (c : Codec) (hc : c.RoundTrip) (H : Bytes → Bytes) (s : St
     (hsmall : ∀ t ∈ ts, (prepare c DEFAULT_LEVEL t).bytes.length ≤ MAX_FRAME_BYTES) :
     ∃ f, s.frames[tableLen pre]? = some f ∧ f.id = tableLen pre ∧
       (children s f.id).length = ts.length ∧
-      childPayloads c s (children s f.id) = .ok ts ∧
-      canonicalBytes c s f = .ok ts.flatten := by
+      childPayloads c H s (children s f.id) = .ok ts ∧
+      canonicalBytes c H s f = .ok ts.flatten := by
   refine ⟨mkFrame H (tableLen pre) cur none (parentEntry c a), frames_doc hi, rfl, ?_⟩
   have hchunks : a.chunks = ts := by simp [PutArgs.chunks, hplan]
   have hkids : children s (tableLen pre) =
@@ -119,7 +119,7 @@ theorem C07_chunked (c : Codec) (hc : c.RoundTrip) (H : Bytes → Bytes) (s : St
     rw [filter_children hi, hchunks, sortBy_chunkG]
   have hlen : (children s (tableLen pre)).length = ts.length := by
     rw [hkids, List.length_map, chunkG_length]
-  have hpay : childPayloads c s (children s (tableLen pre)) = .ok ts := by
+  have hpay : childPayloads c H s (children s (tableLen pre)) = .ok ts := by
     rw [hkids]
     apply childPayloads_chunkG hc a (tableLen pre) hi.pe_de hi.pe_file ts 0 _ _ hsmall
     intro g hg
@@ -138,7 +138,7 @@ theorem C07_chunked (c : Codec) (hc : c.RoundTrip) (H : Bytes → Bytes) (s : St
   show (if (children s (tableLen pre)).isEmpty = true then Except.error Err.noChildren
     else if some (children s (tableLen pre)).length ≠ (mkFrame H (tableLen pre) cur none (parentEntry c a)).manifest
       then Except.error Err.manifestLen
-    else match childPayloads c s (children s (tableLen pre)) with
+    else match childPayloads c H s (children s (tableLen pre)) with
       | .error e => .error e
       | .ok bs => .ok bs.flatten) = _
   have hne : (children s (tableLen pre)).isEmpty = false := by
@@ -229,7 +229,7 @@ theorem C07_open_total (c : Codec) (hc : c.RoundTrip) (H : Bytes → Bytes) (s :
     refine ⟨hi.frames, ?_, Nat.le_max_right _ _, Nat.le_trans hfe hi.pe_file, hi.pending⟩
     intro g hg
     have hg' := hi.stored g hg
-    refine ⟨hg'.len, hg'.bytes, ?_⟩
+    refine ⟨hg'.cksum, hg'.len, hg'.bytes, ?_⟩
     intro hz
     show g.1.off + g.1.len ≤ frameEnds s.frames
     rw [frameEnds_eq]
@@ -293,8 +293,8 @@ def exFixed : Store := run markCodec h0 true {} [.put witnessPut false, .commit,
 
 /-- the same history on the repaired code: committed, read back exactly -/
 example :
-    exFixed.pending = [] ∧ exFixed.frames.map (fun f => readOpt (canonicalBytes markCodec exFixed f)) = [some [1, 2, 3]] ∧
-      exFixed.frames.map (fun f => readOpt (blobReader markCodec exFixed f)) = [some [1, 2, 3]] := by
+    exFixed.pending = [] ∧ exFixed.frames.map (fun f => readOpt (canonicalBytes markCodec h0 exFixed f)) = [some [1, 2, 3]] ∧
+      exFixed.frames.map (fun f => readOpt (blobReader markCodec h0 exFixed f)) = [some [1, 2, 3]] := by
   decide
 
 /-- non-vacuity of `C07_whole` / `C07_chunked` / `C07_fidelity`: a history with a whole binary put, a
@@ -315,7 +315,7 @@ def exState : Store := run markCodec h0 true {} exHistory
 
 example :
     exState.pending = [] ∧
-    exState.frames.map (fun f => readOpt (canonicalBytes markCodec exState f)) =
+    exState.frames.map (fun f => readOpt (canonicalBytes markCodec h0 exState f)) =
       [some [0xff, 0x00], some [0x68, 0x69], some [0x61, 0x62, 0x63, 0x64], some [0x61, 0x62], some [0x63, 0x64], some [1, 2, 3]] ∧
     exState.frames.map (·.parent) = [none, none, none, some 2, some 2, none] := by
   decide
